@@ -25,6 +25,11 @@ ALLOWED_CALLEES = ('recursive_batch_insert_nodes', 'recursive_preload_nodes', 'r
                    'and_then', 'is_some', 'is_none', 'map', 'unwrap_or', 'clone', 'tic_toc', 'instrument', 'fmt', 'new_debug', 'new_display',
                    'default', 'disabled', 'available_parallelism', 'into', 'from', 'call_once', 'call_mut', 'call', 'Directory::new', 'new',
                    'greedy_preload_lookup_nodes', 'log2', 'ilog2', 'min', 'max', 'get', 'try_into', 'unwrap_or_default', 'leading_zeros')
+# callees whose RESULT does not carry the parallelism value (recursion / preload plumbing, predicates);
+# the other allowed callees (and_then, map, unwrap_or, clone, get_parallel_levels, ...) pass it through
+CLEAN_RESULT = ('recursive_batch_insert_nodes', 'recursive_preload_nodes', 'recursive_preload_audit_nodes', 'preload_nodes', 'preload_audit_nodes',
+                'preload_lookup_nodes', 'get_append_only_proof_helper', 'get_append_only_proof', 'batch_insert_nodes', 'is_some', 'is_none',
+                'tic_toc', 'fmt', 'new_debug', 'new_display', 'greedy_preload_lookup_nodes', 'Directory::new', 'new')
 ALLOWED_ADTS = ('Directory', 'AzksParallelismConfig', 'AzksParallelismOption', 'Option', 'ReadOnlyDirectory')
 # Ok(Directory{..}) / Ok(ReadOnlyDirectory(..)) in the constructors
 ALLOWED_WRAP = {('Result', 'Directory::new'), ('Result', 'ReadOnlyDirectory::new')}
@@ -42,7 +47,7 @@ def tainted(e, depth=0):
     if e[0] == 'call':
         nm = (short(e[2] or e[1]) or '?')
         last = nm.split('::')[-1]
-        if last in ALLOWED_CALLEES or nm.endswith('spawn'):
+        if last in CLEAN_RESULT or nm.endswith('spawn'):
             return False
         return any(tainted(a, depth + 1) for a in e[3])
     if e[0] == 'mutby':
